@@ -75,9 +75,9 @@
 (*  P4 Deleting.  A reconcile that read a deleting claim never syncs: it   *)
 (*     writes the XR only by Delete and the claim only by removing the     *)
 (*     finalizer and by status writes, which say Ready=False/Deleting      *)
-(*     (the branch starts with SetConditions(Deleting())).  The real code  *)
-(*     loses that condition in the reconcile that removes the finalizer    *)
-(*     (finding F-a below).  A claim whose XR is bound to another claim    *)
+(*     (the branch starts with SetConditions(Deleting())).  The code lost  *)
+(*     that condition in the reconcile that removes the finalizer          *)
+(*     (finding F-a below, repaired).  A claim whose XR is bound to another *)
 (*     is not deleted at all (the "not bound" exit comes first: "the claim *)
 (*     will need human intervention").                                     *)
 (*  P5 Ready.  Ready=True/Available is written only by a reconcile whose   *)
@@ -112,9 +112,15 @@
 (*     the server-side syncer still drops metadata.generateName from the   *)
 (*     XR it created).                                                     *)
 (*                                                                         *)
-(* Found on the unchanged tree (2026-10-04), all three also visible at      *)
-(* design level (witness cfgs: the code as written violates DeletingTruth, *)
-(* NoOrphan, NoStaleError; the `fixed` cfgs satisfy everything):           *)
+(* Found on the tree as it was on 2026-10-04, all three also visible at     *)
+(* design level (witness cfgs: DeletingTruth with FixDeleting = FALSE,     *)
+(* NoOrphan, NoStaleError with the code as written; the `fixed` cfgs       *)
+(* satisfy everything).  F-a = D25 has been REPAIRED in /repo (835e9e0:    *)
+(* Deleting is set again before the last status write): the quick and      *)
+(* thorough cfgs describe the repaired code (FixDeleting = TRUE) and check *)
+(* DeletingTruth; witness_deleting keeps FALSE; the formula stays as a     *)
+(* plain formula and the revert of 835e9e0 is a mutant of the self-test.   *)
+(* F-b = D26 and F-c = D27 are open known findings.                        *)
 (*  F-a (formula Deleting.Condition.AfterFinalizerRemoval): the twin of    *)
 (*     D16.  RemoveFinalizer's Update decodes the API server's answer into *)
 (*     the claim and drops the Deleting condition set in memory; the       *)
@@ -196,7 +202,7 @@ CONSTANTS
   FaultKinds,  \* subset of {"error", "conflict", "miss", "crashBefore", "crashAfter"}
   FinFirst,    \* TRUE = as written; FALSE = witness: AddFinalizer is skipped
   RvCheck,     \* TRUE = claim writes carry the resourceVersion read; FALSE = witness
-  FixDeleting, \* FALSE = as written (F-a); TRUE = Deleting is set again before the last status write
+  FixDeleting, \* TRUE = as written since 835e9e0 (Deleting is set again before the last status write); FALSE = before (F-a)
   FixMiss,     \* FALSE = as written (F-b); TRUE = the deletion branch deletes by name whenever the claim has a reference
   FixStale     \* FALSE = as written (F-c); TRUE = waiting for the foreground deletion replaces a Synced=False left behind
 
